@@ -16,11 +16,13 @@ package main
 import (
 	"bufio"
 	"fmt"
+	"net"
 	"net/netip"
 	"os"
 	"os/exec"
 	"strings"
 	"syscall"
+	"time"
 
 	"github.com/talostrading/sonic"
 	"github.com/talostrading/sonic/multicast"
@@ -38,6 +40,7 @@ func mcastDirect(seed uint64, tier string, args []string, w *bufio.Writer) {
 		mcastMultihome(w)
 		return
 	}
+	mcastRetainedAddresses(w)
 	self, err := os.Executable()
 	if err != nil {
 		fmt.Fprintf(w, "DIRECT-STAT {\"mcast_multihome\": \"skipped: %v\"}\n", err)
@@ -172,4 +175,114 @@ func mcastMultihome(w *bufio.Writer) {
 		}
 	}
 	fmt.Fprintf(w, "DIRECT-STAT {\"mcast_multihome\": \"ran\", \"mcast_multihome_trials\": %d, \"mcast_multihome_failures\": %d}\n", trials, fails)
+}
+
+// mcastRetainedAddresses (loopback only): what a read reported about its datagram stays true after later reads. Several
+// senders send to one packet connection / multicast peer; every completion's sender address is kept as the value the
+// library handed out (net.Addr / netip.AddrPort), together with the datagram bytes seen in the buffer at that moment; once
+// all reads have completed, each kept address must still name the socket that sent that datagram.
+func mcastRetainedAddresses(w *bufio.Writer) {
+	fails, trials := 0, 0
+	fail := func(key, format string, a ...any) {
+		fails++
+		fmt.Fprintf(w, "DIRECT-FAIL key=mcast.%s %s\n", key, fmt.Sprintf(format, a...))
+	}
+	ioc, err := sonic.NewIO()
+	if err != nil {
+		return
+	}
+	defer ioc.Close()
+	const nSenders, perSender = 3, 3
+	var senders []*net.UDPConn
+	for i := 0; i < nSenders; i++ {
+		c, err := net.ListenUDP("udp4", &net.UDPAddr{IP: net.IPv4(127, 0, 0, 1)})
+		if err != nil {
+			return
+		}
+		defer c.Close()
+		senders = append(senders, c)
+	}
+	type seen struct {
+		addr   net.Addr
+		ap     netip.AddrPort
+		sender int
+	}
+	run := func(kind string, dst *net.UDPAddr, read func(b []byte, done func(err error, n int, a net.Addr, ap netip.AddrPort))) {
+		for round := 0; round < perSender; round++ {
+			for i, c := range senders {
+				if _, err := c.WriteToUDP([]byte{byte(i), byte(round)}, dst); err != nil {
+					return
+				}
+			}
+		}
+		var got []seen
+		var issue func()
+		issue = func() {
+			b := make([]byte, 16)
+			read(b, func(err error, n int, a net.Addr, ap netip.AddrPort) {
+				if err != nil || n != 2 {
+					return
+				}
+				got = append(got, seen{addr: a, ap: ap, sender: int(b[0])})
+				if len(got) < nSenders*perSender {
+					issue() // the next read is started before the address of this one is used
+				}
+			})
+		}
+		issue()
+		for i := 0; i < 200 && len(got) < nSenders*perSender; i++ {
+			_ = ioc.RunOneFor(5 * time.Millisecond)
+		}
+		trials += len(got)
+		if len(got) < nSenders*perSender {
+			fail("read-not-completed", "%s: %d of %d datagrams from %d local senders were read", kind, len(got), nSenders*perSender, nSenders)
+			return
+		}
+		for k, g := range got {
+			want := senders[g.sender].LocalAddr().(*net.UDPAddr)
+			var have string
+			if g.addr != nil {
+				have = g.addr.String()
+			} else {
+				have = g.ap.String()
+			}
+			if have != want.String() {
+				fail("read-sender", "%s: the address handed out by read %d (datagram of sender %d, %s) reads %s after the later reads completed", kind, k, g.sender, want, have)
+				return
+			}
+		}
+	}
+	if pc, err := sonic.NewPacketConn(ioc, "udp", "127.0.0.1:0"); err == nil {
+		if sa, err := syscall.Getsockname(pc.RawFd()); err == nil {
+			if s4, ok := sa.(*syscall.SockaddrInet4); ok {
+				dst := &net.UDPAddr{IP: net.IPv4(127, 0, 0, 1), Port: s4.Port}
+				run("PacketConn.AsyncReadFrom", dst, func(b []byte, done func(error, int, net.Addr, netip.AddrPort)) {
+					pc.AsyncReadFrom(b, func(err error, n int, a net.Addr) { done(err, n, a, netip.AddrPort{}) })
+				})
+				run("PacketConn.AsyncReadAllFrom", dst, func(b []byte, done func(error, int, net.Addr, netip.AddrPort)) {
+					pc.AsyncReadAllFrom(b[:2], func(err error, n int, a net.Addr) { done(err, n, a, netip.AddrPort{}) })
+				})
+				run("PacketConn.ReadFrom", dst, func(b []byte, done func(error, int, net.Addr, netip.AddrPort)) {
+					for i := 0; i < 100; i++ {
+						n, a, err := pc.ReadFrom(b)
+						if err == nil {
+							done(nil, n, a, netip.AddrPort{})
+							return
+						}
+						time.Sleep(time.Millisecond)
+					}
+					done(errNoData, 0, nil, netip.AddrPort{})
+				})
+			}
+		}
+		pc.Close()
+	}
+	if p, err := multicast.NewUDPPeer(ioc, "udp", "127.0.0.1:0"); err == nil {
+		dst := &net.UDPAddr{IP: net.IPv4(127, 0, 0, 1), Port: int(p.LocalAddr().Port)}
+		run("UDPPeer.AsyncRead", dst, func(b []byte, done func(error, int, net.Addr, netip.AddrPort)) {
+			p.AsyncRead(b, func(err error, n int, from netip.AddrPort) { done(err, n, nil, from) })
+		})
+		p.Close()
+	}
+	fmt.Fprintf(w, "DIRECT-STAT {\"mcast_retained_addresses\": %d, \"mcast_retained_address_failures\": %d}\n", trials, fails)
 }
